@@ -777,7 +777,8 @@ func TestProp(t *testing.T) {
 			"operations are run per case; oracle = slab (trapezoid) integration of the area where the result's even-odd membership differs from op(inA,inB), " +
 			"<= 1e-9*(areaA+areaB), plus up to 96 trapezoid-centroid test points per op with a 1e-6*scale margin, plus area identities, closed rings. " +
 			"Every generated pair is counted non-trivial (each measured configuration class exercises the clipper or a shortcut); distinct by case hash; " +
-			"the class histogram gives the measured configuration and kind-pair distribution.",
+			"the class histogram gives the measured configuration and kind-pair distribution." +
+			" Round 9: 'speck' pairs (one operand 1e-7 to 1e-9 of the other's size) with probe points at the small operand's own scale.",
 		Assumptions: []string{"inputs in general position by construction/filter", "the slab integrator (vkit/slab.go) and even-odd PIP (vkit/oracle.go) are the trusted oracle"},
 		Gen:         gen,
 		Run:         run,
